@@ -92,14 +92,6 @@ theorem mean_mem_Icc (n : ℕ) (hn : 0 < n) (f : ℕ → ℝ) (lo hi : ℝ)
   · rw [le_div_iff₀ hn']; linarith [mul_comm (n : ℝ) lo]
   · rw [div_le_iff₀ hn']; linarith [mul_comm (n : ℝ) hi]
 
-/-- affine map (pyvc.lib.ext_policy_stub.sum_affine): a constant factor and a constant
-offset move out of the sum -/
-theorem sum_affine (n : ℕ) (f g : ℕ → ℝ) (k c : ℝ) (h : ∀ j, j < n → f j = k * g j + c) :
-    ∑ j ∈ range n, f j = k * ∑ j ∈ range n, g j + (n : ℝ) * c := by
-  have h1 : ∑ j ∈ range n, f j = ∑ j ∈ range n, (k * g j + c) :=
-    Finset.sum_congr rfl (fun j hj => h j (Finset.mem_range.mp hj))
-  rw [h1, Finset.sum_add_distrib, Finset.sum_const, Finset.card_range, nsmul_eq_mul, Finset.mul_sum]
-
 end PyvcSum
 
 /- ---- C16 (CMA-ES): positivity, division, diagonal collapse (pyvc/lib/ext_cmaes.py) ---- -/
@@ -150,13 +142,5 @@ theorem c16_normalised_sum_one (n : ℕ) (a w : ℕ → ℝ)
     ∑ j ∈ range n, w j = 1 := by
   rw [c16_sum_div n a w _ h]
   exact div_self hS
-
-/-- affine map (pyvc.lib.ext_policy_stub.sum_affine): a constant factor and a constant
-offset move out of the sum -/
-theorem sum_affine (n : ℕ) (f g : ℕ → ℝ) (k c : ℝ) (h : ∀ j, j < n → f j = k * g j + c) :
-    ∑ j ∈ range n, f j = k * ∑ j ∈ range n, g j + (n : ℝ) * c := by
-  have h1 : ∑ j ∈ range n, f j = ∑ j ∈ range n, (k * g j + c) :=
-    Finset.sum_congr rfl (fun j hj => h j (Finset.mem_range.mp hj))
-  rw [h1, Finset.sum_add_distrib, Finset.sum_const, Finset.card_range, nsmul_eq_mul, Finset.mul_sum]
 
 end PyvcSum
